@@ -89,7 +89,7 @@ func (p *Program) parseContracts(path string, overlay []byte) error {
 		ln   int
 	}
 	var lines []lline
-	reStart := regexp.MustCompile(`^(func|interface|spec|lemma|axiom|autolemma|autoaxiom|foldaxiom|comparable|appendlemma|fieldinv|eleminv|requires|ensures|assumes|invariant|decreases|assigns|inline|use|props|trust|check|loop|ghost|abstract|bounded|results|pure)\b`)
+	reStart := regexp.MustCompile(`^(func|interface|spec|lemma|axiom|autolemma|autoaxiom|foldaxiom|comparable|appendlemma|fieldinv|eleminv|typeinv|requires|ensures|assumes|invariant|decreases|assigns|inline|use|props|trust|check|loop|ghost|abstract|bounded|results|pure)\b`)
 	for ln, raw := range rawLines {
 		t := strings.TrimSpace(raw)
 		if !strings.HasPrefix(t, "//@") {
@@ -132,7 +132,7 @@ func (p *Program) parseContracts(path string, overlay []byte) error {
 			curLoop = -1
 			last = nil
 			continue
-		case strings.HasPrefix(t, "fieldinv "), strings.HasPrefix(t, "eleminv "):
+		case strings.HasPrefix(t, "fieldinv "), strings.HasPrefix(t, "eleminv "), strings.HasPrefix(t, "typeinv "):
 			// fieldinv T.f: expr(v)      eleminv []T: expr(v)
 			kind := t[:strings.Index(t, " ")]
 			rest := strings.TrimSpace(t[len(kind):])
@@ -147,6 +147,8 @@ func (p *Program) parseContracts(path string, overlay []byte) error {
 			}
 			if kind == "fieldinv" {
 				p.fieldInvs[key] = &Clause{Src: src, Expr: e, Line: ln + 1}
+			} else if kind == "typeinv" {
+				p.typeInvs[key] = &Clause{Src: src, Expr: e, Line: ln + 1}
 			} else {
 				p.elemInvs[key] = &Clause{Src: src, Expr: e, Line: ln + 1}
 			}
